@@ -216,7 +216,8 @@ Print Assumptions C10_waitsignal_deadlock_free.
 
 (** The detailed system (ConcDetailed.v): the whole pipeline with every worker executing
     the real waitFor / signal steps (fast-path load, waiters counter, mutex, cond.Wait,
-    Broadcast) around each macroblock, and the recorder doing the same per row.
+    Broadcast) around each macroblock, the macroblock body split into a read-neighbour and a
+    write-own sub-step, and the recorder doing the same per row.
     Refinement: every run of the detailed system projects (abstraction [abs]: a worker
     inside waitFor has not started its macroblock, a worker inside signal has finished
     it) to a run of the L1 system ending in the abstraction of its last state. *)
@@ -255,6 +256,21 @@ Theorem C10_detailed_reads_serial :
   (S x < mbW -> D.d_top V s (S x) = ((if y =? 0 then None else Some (y - 1)), P V v0 f mbW y (S x))).
 Proof. exact Conc.ConcDetailedProofs.detailed_reads_serial. Qed.
 Print Assumptions C10_detailed_reads_serial.
+
+(** The macroblock body is TWO steps in the detailed system — read the neighbour contexts
+    top[x], top[x+1]; later compute and write top[x] and the output.  The values a worker
+    holds in between are still the serial ones when it writes (no other worker writes the
+    cells it read), and what it then writes is the serial result. *)
+Theorem C10_detailed_held_values_serial :
+  forall (V : Type) (v0 : V) (f : nat -> nat -> V -> V -> V -> V -> V) (mbW mbH : nat),
+  1 <= mbW ->
+  forall (n : nat) (sched : list label) (s : D.dstate V) (i y x : nat) (tl l t tr : V),
+  D.drun V v0 f mbW mbH (D.dinit V v0 n) sched = Some s ->
+  nth_error (D.d_workers V s) i = Some (D.DHold y x tl l t tr) ->
+  t = P V v0 f mbW y x /\ (S x < mbW -> tr = P V v0 f mbW y (S x)) /\
+  f y x tl t tr l = serial_out V v0 f mbW y x.
+Proof. exact Conc.ConcDetailedProofs.detailed_held_values_serial. Qed.
+Print Assumptions C10_detailed_held_values_serial.
 
 (** The detailed system never deadlocks: every reachable state that is not final has an
     enabled transition (multi-row version of the L2 invariant: waiters counter = number
